@@ -1,6 +1,15 @@
 import PagexmlModel.Drv.Util
 import PagexmlModel.Drv.C03
 import PagexmlModel.Drv.C10
+import PagexmlModel.Drv.C11
+import PagexmlModel.Drv.C20
+import PagexmlModel.Drv.C18
+import PagexmlModel.Drv.C17
+import PagexmlModel.Drv.C16
+import PagexmlModel.Drv.C15
+import PagexmlModel.Drv.C14
+import PagexmlModel.Drv.C13
+import PagexmlModel.Drv.C12
 open Lean
 
 namespace Pagexml.Drv
@@ -10,6 +19,15 @@ def dispatch (p op : String) (args : Json) : Dec Json :=
   match p with
   | "C03" => C03.handle op args
   | "C10" => C10.handle op args
+  | "C11" => C11.handle op args
+  | "C12" => C12.handle op args
+  | "C13" => C13.handle op args
+  | "C14" => C14.handle op args
+  | "C15" => C15.handle op args
+  | "C16" => C16.handle op args
+  | "C17" => C17.handle op args
+  | "C18" => C18.handle op args
+  | "C20" => C20.handle op args
   | _ => .error s!"unknown property {p}"
 
 end Pagexml.Drv
